@@ -176,7 +176,9 @@ impl<G: SerializeElement> SerializeElement for Vec<G> {
             where
                 A: SeqAccess<'de>,
             {
-                let mut elems = Vec::with_capacity(seq.size_hint().unwrap_or(0));
+                // Never trust the claimed length for the up-front allocation (it comes from the
+                // wire); the vector still grows as elements actually arrive.
+                let mut elems = Vec::with_capacity(std::cmp::min(seq.size_hint().unwrap_or(0), 4096));
                 while let Some(elem) = seq.next_element::<DeWrapper<G>>()? {
                     elems.push(elem.0);
                 }
@@ -245,7 +247,9 @@ impl<G: SerializeElement, const N: usize> SerializeElement for [G; N] {
             {
                 let mut elems = ArrayVec::new();
                 while let Some(elem) = seq.next_element::<DeWrapper<G>>()? {
-                    elems.push(elem.0);
+                    elems
+                        .try_push(elem.0)
+                        .map_err(|_| de::Error::custom("wrong number of elements for array"))?;
                 }
                 elems
                     .into_inner()
